@@ -224,6 +224,13 @@ func explore05(r *kit.Run, n, t, view int) (states, transitions int, phases map[
 				r.Violation("C05/rejected-but-changed/"+string(in.Event), fmt.Sprintf("in %s the event %s was rejected (%v) but the state store changed: keys %v", stB, in.Label, err, after.DiffKeys(snap)), trace())
 			}
 			if !changed {
+				// "a decline, a reported error ... puts the round into a cancelled state": a failure
+				// report of the current phase from a participant that is still awaited must not be
+				// without effect (whatever its time stamp says)
+				if in.Fail && okB && pB <= 4 && !cancB && in.Phase == pB && in.PID >= 0 && in.PID < n &&
+					cur.Mon.Deliv[pB][in.PID] == 0 && !cur.Mon.Fail[pB][in.PID] {
+					r.Violation("C05/failure-report-without-effect/"+string(in.Event)+"/"+in.Variant, fmt.Sprintf("in %s (deliveries %v) the failure report %s of a participant that is still awaited was without effect (error: %v): the round goes on", stB, cur.Mon.Deliv, in.Label, err), trace())
+				}
 				out = append(out, &xsearch.St{Key: s.Key, Data: cur, Via: in.Label})
 				continue
 			}
